@@ -94,6 +94,9 @@ func writeRefMemo(units []*Unit) error {
 		for _, s := range u.memoSites() {
 			keys = append(keys, u.memoKey(s))
 		}
+		for _, s := range u.poolPutSites() {
+			keys = append(keys, u.memoKey(s))
+		}
 	}
 	sort.Strings(keys)
 	b, _ := json.MarshalIndent(keys, "", " ")
